@@ -53,20 +53,23 @@ func verifE05Relations(td *openfgav1.TypeDefinition) []string {
 }
 
 // verifE05Requests: every type#relation against one object per type ("min") or against every object,
-// every userset over the universe and every typed wildcard ("all").
+// every userset over the universe and every typed wildcard ("all"; "nowild" = all but the typed wildcards,
+// used by the contextual-tuple jobs of the weighted variant, whose wildcard subjects hit a recorded finding).
 func verifE05Requests(u *vtsem.Universe, subjects string) []verifE05Req {
 	var subs []string
 	for _, t := range u.Types {
 		subs = append(subs, u.Objects[t][0])
 	}
-	if subjects == "all" {
+	if subjects == "all" || subjects == "nowild" {
 		for _, td := range u.Model.GetTypeDefinitions() {
 			t := td.GetType()
 			subs = append(subs, u.Objects[t][1:]...)
 			for _, r := range verifE05Relations(td) {
 				subs = append(subs, u.Objects[t][0]+"#"+r)
 			}
-			subs = append(subs, t+":*")
+			if subjects == "all" {
+				subs = append(subs, t+":*")
+			}
 		}
 	}
 	var out []verifE05Req
@@ -220,6 +223,13 @@ func VerifE05ListObjects() {
 		unevaluable := st.AnyPresentConditionError()
 		for i, o := range objects {
 			vt.Assert(unevaluable || !permitted[i] || verifE05Index(got, o) >= 0, "listobjects: a permitted object is not returned although nothing limits the answer")
+			if vt.ParamInt("known_swallowed_condition_errors", 0) == 1 {
+				// Finding (reported by the strict job, which runs without this parameter): with max results 0
+				// Execute never returns the collected condition errors (`len(objects) < int(maxResults)` is
+				// never true). Jobs that set the parameter skip exactly this obligation so that the others are
+				// explored on every path (the engine stops a run after five violations).
+				continue
+			}
 			vt.Assert(!oracle.Holds(o, rq.rel).IsError(), "listobjects: no error although the permission of an object depends on an unevaluable condition (unbounded answer)")
 		}
 		return
